@@ -9,7 +9,7 @@ MODE = {"r": 16, "w": 32, "x": 48}
 
 
 def harness():
-    return vlib.cc_harness("sfdrive", ["sfdrive.c"], kind="asan")
+    return vlib.cc_harness("sfdrive", ["sfdrive.c"], kind="asan", extra="-Wl,--wrap=time")
 
 
 def model():
